@@ -2,6 +2,7 @@
 From Coq Require Import ZArith List Bool Reals Sorted. Import ListNotations.
 From PV Require Import Num NumR model.Geom proofs.LatticeFacts proofs.SiteFacts.
 From PV Require Import gen.GenFns proofs.SourceFacts.
+From PV Require Import model.Iter proofs.SearchFacts.
 
 Theorem C14_to_cartesian_linear :
   forall c : cellR, to_cartesian NumR c (1%R, 0%R) = vecA c /\ to_cartesian NumR c (0%R, 1%R) =
@@ -79,4 +80,11 @@ Theorem C14_source_translated :
   gen_fns_problem = String.EmptyString.
 Proof. exact source_translated. Qed.
 Print Assumptions C14_source_translated.
+
+
+Theorem C14_periodic_images_is_source :
+  forall (NN : Num) (c : cell NN) (t : tf NN) (k : Z) (zero : bool), gen_periodic_images NN c t
+    k zero = periodic_images NN c t k zero.
+Proof. exact periodic_images_is_source. Qed.
+Print Assumptions C14_periodic_images_is_source.
 
